@@ -45,6 +45,8 @@ module Nat :
 
 val hd : 'a1 -> 'a1 list -> 'a1
 
+val tl : 'a1 list -> 'a1 list
+
 val nth : nat -> 'a1 list -> 'a1 -> 'a1
 
 val nth_error : 'a1 list -> nat -> 'a1 option
@@ -846,3 +848,114 @@ val optimize_prog :
   fixes -> ucode list -> n -> n list option list -> optimized
 
 val run_level : fixes -> nat -> ucode list -> n -> n list option list -> final
+
+val trim_left : n list -> n list
+
+val trim : n list -> n list
+
+val kW_CLEAR : n list
+
+val kW_HELP : n list
+
+val kW_EXIT : n list
+
+val leqb : n list -> n list -> bool
+
+type revent =
+| EvNothing
+| EvHelp
+| EvFlush of n list * n list
+
+type rend =
+| RAlive
+| RQuit
+| RProgExit of n
+| RFail of errkind
+| RFuelOut
+| RPanicked
+
+val with_fresh_io : state -> state
+
+val flush_of : state -> revent
+
+val repl :
+  bool -> nat -> n list list -> xcode list -> state -> revent list * rend
+
+val repl_run : bool -> nat -> n list list -> revent list * rend
+
+type ierr =
+| IEmpty
+| IInvalid
+| IOverflow
+
+val uSIZE_MAX : n
+
+val digits_acc : n list -> n -> (n option, ierr) sum
+
+val parse_usize : n list -> (n, ierr) sum
+
+val split_sp : n list -> n list -> n list list
+
+type devent =
+| DvPrompt
+| DvShowCode of n list
+| DvFlush of n list * n list
+| DvMovedBack
+| DvCantGoBack
+| DvState of n
+| DvListBreaks
+| DvIntErr of ierr
+| DvRange
+| DvSet of n
+| DvUnset of n
+| DvHelp
+| DvNotFound of n list
+
+type dend =
+| DEof
+| DQuit
+| DFinished
+| DProgExit of n
+| DFail of errkind
+| DPanic
+| DFuelOut
+
+type dstate = { hist : (state * n) list; brk : n list; running : bool;
+                dio : state }
+
+val w_next : n list
+
+val w_previous : n list
+
+val w_run : n list
+
+val w_state : n list
+
+val w_break : n list
+
+val w_help : n list
+
+val w_exit : n list
+
+val is_word : n list -> n list -> n -> bool
+
+val ins_asc : n -> n list -> n list
+
+val sort_asc : n list -> n list
+
+val mem_N : n -> n list -> bool
+
+val remove_N : n -> n list -> n list
+
+val dstep0 : xcode list -> dstate -> ((state * n) * state, final) sum
+
+val flushed : state -> devent
+
+val clear_io : state -> state
+
+val dloop :
+  bool -> bool -> nat -> xcode list -> n list list -> dstate -> devent
+  list * dend
+
+val debug_run :
+  bool -> bool -> nat -> xcode list -> n list list -> devent list * dend
